@@ -365,7 +365,7 @@ def run_shard(spec, ctx):
         else:
             ast = progs.gen_program(rng, depth=3, maxn=5, sugar=False)
             try:
-                b = bytearray(asm.assemble(ast))
+                b = bytearray(asm.assemble_program(ast))
             except asm.AsmError:
                 continue
             for _ in range(rng.randrange(1, 4)):
